@@ -2,7 +2,7 @@
 import itertools
 from fractions import Fraction
 import symnp as np
-from harness.common import Obligation, PathResult, real_sempler, unj, unj_float
+from harness.common import visibly, Obligation, PathResult, real_sempler, unj, unj_float
 from harness import C05
 from harness import scm_inputs as SI
 from harness import inputs as I
@@ -66,11 +66,11 @@ def h_regress(ctx):
                     cl.append(('coefficient %d outside S is zero' % k, b[k] == 0))
             for s_ in S:
                 lhs = sum((Sg[s_][t] * b[t] for t in S), 0)
-                cl.append(('normal equation for regressor %d (zero residual covariance)' % s_, lhs == Sg[s_][y]))
+                cl.append(('normal equation for regressor %d (zero residual covariance)' % s_, lhs == Sg[s_][y], visibly(lhs, Sg[s_][y])))
             cl.append(('intercept makes the residual mean zero', intercept == mu[y] - sum((b[k] * mu[k] for k in range(p)), 0)))
             resvar = Sg[y][y] - 2 * sum((b[k] * Sg[k][y] for k in range(p)), 0) + \
                 sum((b[k] * b[l] * Sg[k][l] for k in range(p) for l in range(p)), 0)
-            cl.append(('mse is the variance of the residual', m == resvar))
+            cl.append(('mse is the variance of the residual', m == resvar, visibly(m, resvar)))
             if y in S:
                 cl.append(('y in S: coefficient of y is 1', b[y] == 1))
                 cl.append(('y in S: mse = 0', m == 0))
